@@ -25,8 +25,10 @@ CLAIMED.update({
    text="The ordered-list model of DimensionSet (spec/DimSets.tla) is checked by TLC for UniqueInv, the algebraic laws of union / intersection / "
         "difference / symmetric difference / '+', and the action property that only the call's target changes; every pair of sets over the alphabet "
         "x every operator and every history of in-place / out-of-place operations to depth 2-3 (simulated to depth 10) is replayed into flodym, "
-        "comparing every register and every lookup form with the model after every step, including an array built from a set that is later edited.",
-   technique="TLA+ ordered-list state machine MC_DimSets checked with TLC (invariants, laws, action property); behaviours replayed into flodym"),
+        "comparing every register and every lookup form with the model after every step, including an array built from a set that is later edited. "
+        "Direction B: random programs of 30-40 calls over ten dimensions on seven letters are RECORDED from real DimensionSet objects and validated "
+        "by TLC against the same model (spec/trace/Trace_DimSets.tla); every eighth history is also replayed over dimensions of 60 000 items.",
+   technique="TLA+ ordered-list state machine MC_DimSets checked with TLC (invariants, laws, action property); behaviours replayed into flodym; recorded traces validated by TLC (Trace_DimSets)"),
  "C03": dict(engine="stocks", ref="6/C03",
    text="The documented time discretisation and the three stock classes are specified over exact rationals (TimeGrid/Lifetime/Stocks.tla); TLC checks "
         "Conserves on every (configuration, class, driver) of bounded models and emits all tables; flodym is run on each and compared, the "
@@ -65,8 +67,11 @@ CLAIMED.update({
         "comparison on two-component numbers (NaN never within tolerance) and the flagged-flow set; TLC checks the mirror law and the expected "
         "verdicts on every (balanced system, single-entry perturbation) and emits them; each is built as a real MFASystem through make_processes / "
         "make_empty_flows / make_empty_stocks and both checks are run with explicit / default tolerance, raise_error True / False, three exception "
-        "lists, and again after rescaling all values of the same object.",
-   technique="TLA+ model of system graphs with two-component tolerance arithmetic checked with TLC (MC_MassBalance); every transition replayed into flodym"),
+        "lists, and again after rescaling all values of the same object (and a second round after a reported NaN was replaced). Direction B: histories "
+        "of writes and checks on RANDOM system graphs (2-6 processes, up to 9 flows and 3 stocks over random ordered dimension subsets, balanced by "
+        "construction or not) are recorded from real MFASystem objects and validated by TLC against the same contract "
+        "(spec/trace/Trace_MassBalance.tla), including the set of processes the library names as failing.",
+   technique="TLA+ model of system graphs with two-component tolerance arithmetic checked with TLC (MC_MassBalance); every transition replayed into flodym; recorded histories on random graphs validated by TLC (Trace_MassBalance)"),
  "C18": dict(engine="system", ref="6/C18",
    text="System.tla states which definitions are refused (when the definition or the system is built) and what Build(def) must contain; TLC enumerates "
         "definitions from pools and dimension-file variants; each is built through from_data_reader / from_csv / from_excel / manual assembly with "
